@@ -59,6 +59,593 @@ fn tail_expr(b: &syn::Block) -> Result<&syn::Expr, String> {
     }
 }
 
+// ---------------------------------------------------------------------------------------------------------
+// syntax-tree helpers
+// ---------------------------------------------------------------------------------------------------------
+
+const LOG_MACROS: [&str; 6] = ["trace", "debug", "info", "warn", "error", "println"];
+
+fn is_log_macro(m: &syn::Macro) -> bool {
+    m.path.segments.last().map(|s| LOG_MACROS.contains(&s.ident.to_string().as_str())).unwrap_or(false)
+}
+
+/// statements of a block without log macros
+fn stmts(b: &syn::Block) -> Vec<&syn::Stmt> {
+    b.stmts
+        .iter()
+        .filter(|st| match st {
+            syn::Stmt::Macro(m) => !is_log_macro(&m.mac),
+            syn::Stmt::Expr(syn::Expr::Macro(m), _) => !is_log_macro(&m.mac),
+            _ => true,
+        })
+        .collect()
+}
+
+/// the value of a block: its last statement when that is an expression without `;`
+fn block_value(b: &syn::Block) -> Option<&syn::Expr> {
+    match stmts(b).last() {
+        Some(syn::Stmt::Expr(e, None)) => Some(e),
+        _ => None,
+    }
+}
+
+fn peel(e: &syn::Expr) -> &syn::Expr {
+    match e {
+        syn::Expr::Paren(p) => peel(&p.expr),
+        syn::Expr::Group(g) => peel(&g.expr),
+        syn::Expr::Reference(r) => peel(&r.expr),
+        syn::Expr::Unary(u) if matches!(u.op, syn::UnOp::Deref(_)) => peel(&u.expr),
+        _ => e,
+    }
+}
+
+fn ident_of(e: &syn::Expr) -> Option<String> {
+    match peel(e) {
+        syn::Expr::Path(p) if p.path.segments.len() == 1 && p.qself.is_none() => Some(p.path.segments[0].ident.to_string()),
+        _ => None,
+    }
+}
+
+fn method<'a>(e: &'a syn::Expr, name: &str) -> Option<&'a syn::ExprMethodCall> {
+    match peel(e) {
+        syn::Expr::MethodCall(m) if m.method == name => Some(m),
+        _ => None,
+    }
+}
+
+fn call_named<'a>(e: &'a syn::Expr, name: &str) -> Option<&'a syn::ExprCall> {
+    match peel(e) {
+        syn::Expr::Call(c) => match &*c.func {
+            syn::Expr::Path(p) if p.path.segments.last().map(|s| s.ident == name).unwrap_or(false) => Some(c),
+            _ => None,
+        },
+        _ => None,
+    }
+}
+
+fn pat_ident(p: &syn::Pat) -> Option<String> {
+    match p {
+        syn::Pat::Ident(i) => Some(i.ident.to_string()),
+        syn::Pat::Type(t) => pat_ident(&t.pat),
+        _ => None,
+    }
+}
+
+#[derive(Default)]
+struct Collect<'a> {
+    locals: Vec<(String, &'a syn::Expr)>,
+    ifs: Vec<&'a syn::ExprIf>,
+    method_calls: Vec<&'a syn::ExprMethodCall>,
+}
+
+impl<'a> syn::visit::Visit<'a> for Collect<'a> {
+    fn visit_local(&mut self, l: &'a syn::Local) {
+        if let (Some(n), Some(init)) = (pat_ident(&l.pat), l.init.as_ref()) {
+            self.locals.push((n, &init.expr));
+        }
+        syn::visit::visit_local(self, l);
+    }
+    fn visit_expr_if(&mut self, i: &'a syn::ExprIf) {
+        self.ifs.push(i);
+        syn::visit::visit_expr_if(self, i);
+    }
+    fn visit_expr_method_call(&mut self, m: &'a syn::ExprMethodCall) {
+        self.method_calls.push(m);
+        syn::visit::visit_expr_method_call(self, m);
+    }
+    fn visit_macro(&mut self, _m: &'a syn::Macro) {}
+}
+
+fn collect<'a>(blocks: &[&'a syn::Block]) -> Collect<'a> {
+    use syn::visit::Visit;
+    let mut c = Collect::default();
+    for b in blocks {
+        c.visit_block(b);
+    }
+    c
+}
+
+fn else_block(i: &syn::ExprIf) -> Option<&syn::Block> {
+    match i.else_branch.as_ref().map(|(_, e)| &**e) {
+        Some(syn::Expr::Block(b)) => Some(&b.block),
+        _ => None,
+    }
+}
+
+fn is_quorum_call(e: &syn::Expr) -> Result<bool, String> {
+    let Some(c) = call_named(e, "get_quorum_value") else { return Ok(false) };
+    // the argument must be the cfg's `get_quorum` field
+    let ok = c.args.len() == 1
+        && matches!(peel(&c.args[0]), syn::Expr::Field(f) if matches!(&f.member, syn::Member::Named(n) if n == "get_quorum"));
+    if ok {
+        Ok(true)
+    } else {
+        Err(format!("get_quorum_value is applied to `{}`, not to the cfg's get_quorum", toks(&c.args)))
+    }
+}
+
+/// `true`: the query completes when (number of distinct responders of the version) >= get_quorum_value(cfg.get_quorum);
+/// `false`: strict `>`; anything else is refused.
+fn read_threshold(blocks: &[&syn::Block]) -> Result<bool, String> {
+    let c = collect(blocks);
+    // locals bound to the quorum value
+    let mut quorum_locals = vec![];
+    for (n, init) in &c.locals {
+        if is_quorum_call(init)? {
+            quorum_locals.push(n.clone());
+        }
+    }
+    // locals bound to "insert the peer into the version's responder set; its size (or 1 for a new version)"
+    let mut count_locals = vec![];
+    for (n, init) in &c.locals {
+        let syn::Expr::If(i) = peel(init) else { continue };
+        let Some(eb) = else_block(i) else { continue };
+        let (Some(tv), Some(ev)) = (block_value(&i.then_branch), block_value(eb)) else { continue };
+        let then_is_len = method(tv, "len").map(|m| m.args.is_empty() && ident_of(&m.receiver).is_some()).unwrap_or(false);
+        let else_is_one = matches!(peel(ev), syn::Expr::Lit(l) if matches!(&l.lit, syn::Lit::Int(v) if v.base10_digits() == "1"));
+        let inserts = |b: &syn::Block| collect(&[b]).method_calls.iter().any(|m| m.method == "insert");
+        if then_is_len && else_is_one && inserts(&i.then_branch) && inserts(eb) {
+            // the size must be read from the set the peer was inserted into, after the insertion
+            let recv = method(tv, "len").and_then(|m| ident_of(&m.receiver)).unwrap_or_default();
+            let st = stmts(&i.then_branch);
+            let inserted_before = st.iter().rev().skip(1).any(|s| {
+                let t = toks(*s);
+                t.contains(&format!("{recv}.insert("))
+            });
+            if !inserted_before {
+                return Err(format!("the responder count `{n}` is not `insert(peer); {recv}.len()`"));
+            }
+            count_locals.push(n.clone());
+        }
+    }
+    if count_locals.len() != 1 {
+        return Err(format!("cannot identify the responder count (found {} candidate bindings)", count_locals.len()));
+    }
+    let is_count = |e: &syn::Expr| ident_of(e).map(|n| count_locals.contains(&n)).unwrap_or(false);
+    let is_quorum = |e: &syn::Expr| -> bool {
+        ident_of(e).map(|n| quorum_locals.contains(&n)).unwrap_or(false) || is_quorum_call(e).unwrap_or(false)
+    };
+    let mut verdicts = vec![];
+    for i in &c.ifs {
+        let syn::Expr::Binary(b) = peel(&i.cond) else {
+            // a condition that mentions the count but is not a plain comparison is not understood
+            if count_locals.iter().any(|n| toks(&*i.cond).contains(n.as_str())) && !matches!(&*i.cond, syn::Expr::Let(_)) {
+                return Err(format!("completion test `{}` is not a plain comparison", toks(&*i.cond)));
+            }
+            continue;
+        };
+        let (l, r) = (&*b.left, &*b.right);
+        let v = if is_count(l) && is_quorum(r) {
+            match b.op {
+                syn::BinOp::Ge(_) => true,
+                syn::BinOp::Gt(_) => false,
+                _ => return Err(format!("completion test `{}` uses an unexpected operator", toks(&*i.cond))),
+            }
+        } else if is_quorum(l) && is_count(r) {
+            match b.op {
+                syn::BinOp::Le(_) => true,
+                syn::BinOp::Lt(_) => false,
+                _ => return Err(format!("completion test `{}` uses an unexpected operator", toks(&*i.cond))),
+            }
+        } else if is_count(l) || is_count(r) || toks(&*i.cond).contains(count_locals[0].as_str()) {
+            return Err(format!("completion test `{}` does not compare the responder count with the quorum value", toks(&*i.cond)));
+        } else {
+            continue;
+        };
+        verdicts.push(v);
+    }
+    match verdicts.as_slice() {
+        [v] => Ok(*v),
+        [] => Err("no test of the responder count against get_quorum_value(&cfg.get_quorum) found".into()),
+        _ => Err("several tests of the responder count against the quorum value".into()),
+    }
+}
+
+/// is `e` the key of the reply's record: `<reply>.record.key`
+fn is_reply_key(e: &syn::Expr, reply: &str) -> bool {
+    match peel(e) {
+        syn::Expr::Field(k) if matches!(&k.member, syn::Member::Named(n) if n == "key") => match peel(&k.base) {
+            syn::Expr::Field(r) if matches!(&r.member, syn::Member::Named(n) if n == "record") => ident_of(&r.base).as_deref() == Some(reply),
+            _ => false,
+        },
+        _ => false,
+    }
+}
+
+/// does the expression mention `<anything>.record.key` as an operand of a comparison
+struct KeyComparisons(usize);
+impl<'a> syn::visit::Visit<'a> for KeyComparisons {
+    fn visit_expr_binary(&mut self, b: &'a syn::ExprBinary) {
+        if matches!(b.op, syn::BinOp::Eq(_) | syn::BinOp::Ne(_)) {
+            let is_key = |e: &syn::Expr| matches!(peel(e), syn::Expr::Field(k) if matches!(&k.member, syn::Member::Named(n) if n == "key")
+                && matches!(peel(&k.base), syn::Expr::Field(r) if matches!(&r.member, syn::Member::Named(n) if n == "record")));
+            if is_key(&b.left) || is_key(&b.right) {
+                self.0 += 1;
+            }
+        }
+        syn::visit::visit_expr_binary(self, b);
+    }
+    fn visit_expr_method_call(&mut self, m: &'a syn::ExprMethodCall) {
+        if (m.method == "eq" || m.method == "ne") && toks(m).contains(".record.key") {
+            self.0 += 1;
+        }
+        syn::visit::visit_expr_method_call(self, m);
+    }
+    fn visit_macro(&mut self, _m: &'a syn::Macro) {}
+}
+
+/// `true`: inside `if let Entry::Occupied(mut entry) = self.pending_get_record.entry(..)`, right after
+/// `let (key, ..) = entry.get_mut();` and before any other statement, a reply whose `record.key` differs from that key
+/// is dropped with `return Ok(())`; `false`: the reply's record key is compared with nothing anywhere; else refused.
+fn read_found_checks_key(f: &syn::ImplItemFn, blocks: &[&syn::Block]) -> Result<bool, String> {
+    use syn::visit::Visit;
+    let mut kc = KeyComparisons(0);
+    for b in blocks {
+        kc.visit_block(b);
+    }
+    if kc.0 == 0 {
+        return Ok(false);
+    }
+    if kc.0 > 1 {
+        return Err("the reply's record key is compared more than once".into());
+    }
+    // the parameter of type PeerRecord
+    let reply = f
+        .sig
+        .inputs
+        .iter()
+        .find_map(|a| match a {
+            syn::FnArg::Typed(t) if toks(&*t.ty).ends_with("PeerRecord") => pat_ident(&t.pat),
+            _ => None,
+        })
+        .ok_or("no PeerRecord parameter")?;
+    // the `if let Entry::Occupied(..) = self.pending_get_record.entry(..)` of the function body itself
+    let c = collect(&[&f.block]);
+    let occupied: Vec<&&syn::ExprIf> = c
+        .ifs
+        .iter()
+        .filter(|i| matches!(&*i.cond, syn::Expr::Let(l) if toks(&*l.pat).starts_with("Entry::Occupied(") && toks(&*l.expr).contains("self.pending_get_record.entry(")))
+        .collect();
+    let [occ] = occupied.as_slice() else { return Err("expected one `if let Entry::Occupied(..) = self.pending_get_record.entry(..)`".into()) };
+    let st = stmts(&occ.then_branch);
+    // 1st statement: let (<key>, ..) = <entry>.get_mut();
+    let key_name = match st.first() {
+        Some(syn::Stmt::Local(l)) => {
+            let is_get_mut = l.init.as_ref().map(|i| method(&i.expr, "get_mut").is_some()).unwrap_or(false);
+            match (&l.pat, is_get_mut) {
+                (syn::Pat::Tuple(t), true) if t.elems.len() == 4 => pat_ident(&t.elems[0]).ok_or("the pending key is not bound by name")?,
+                _ => return Err("the first statement for a pending query is not `let (key, senders, result_map, cfg) = entry.get_mut()`".into()),
+            }
+        }
+        _ => return Err("the first statement for a pending query is not a binding of the entry".into()),
+    };
+    // 2nd statement: if <reply>.record.key != *<key> { [logs]; return Ok(()); }
+    let guard = match st.get(1) {
+        Some(syn::Stmt::Expr(syn::Expr::If(i), _)) => i,
+        _ => return Err("the record key is compared, but not in a guard placed before any use of the reply".into()),
+    };
+    if guard.else_branch.is_some() {
+        return Err("the key guard has an else branch".into());
+    }
+    let syn::Expr::Binary(b) = peel(&guard.cond) else { return Err("the key guard is not a comparison".into()) };
+    if !matches!(b.op, syn::BinOp::Ne(_)) {
+        return Err(format!("the key guard `{}` is not a `!=`", toks(&*guard.cond)));
+    }
+    let is_pending_key = |e: &syn::Expr| ident_of(e).as_deref() == Some(key_name.as_str());
+    let sides_ok = (is_reply_key(&b.left, &reply) && is_pending_key(&b.right)) || (is_pending_key(&b.left) && is_reply_key(&b.right, &reply));
+    if !sides_ok {
+        return Err(format!("the key guard `{}` does not compare the reply's record key with the pending key", toks(&*guard.cond)));
+    }
+    let gs = stmts(&guard.then_branch);
+    let drops = match gs.as_slice() {
+        [syn::Stmt::Expr(syn::Expr::Return(r), _)] => r.expr.as_ref().map(|v| toks(&**v) == "Ok(())").unwrap_or(false),
+        _ => false,
+    };
+    if !drops {
+        return Err("a reply with another key is not simply dropped with `return Ok(())`".into());
+    }
+    Ok(true)
+}
+
+/// the branch taken when the result map holds exactly one version answers through `send_record_after_checking_target`
+fn read_single_version_branch(blocks: &[&syn::Block]) -> Result<(), String> {
+    let c = collect(blocks);
+    let mut hits = 0;
+    for i in &c.ifs {
+        let syn::Expr::Binary(b) = peel(&i.cond) else { continue };
+        if !matches!(b.op, syn::BinOp::Eq(_)) {
+            continue;
+        }
+        let is_one = |e: &syn::Expr| matches!(peel(e), syn::Expr::Lit(l) if matches!(&l.lit, syn::Lit::Int(v) if v.base10_digits() == "1"));
+        let is_len = |e: &syn::Expr| method(e, "len").is_some();
+        if !((is_len(&b.left) && is_one(&b.right)) || (is_one(&b.left) && is_len(&b.right))) {
+            continue;
+        }
+        let calls = calls_in_block(&i.then_branch);
+        if calls.paths.iter().any(|p| p.ends_with("send_record_after_checking_target")) {
+            hits += 1;
+        } else {
+            return Err("the single-version branch does not answer through send_record_after_checking_target".into());
+        }
+    }
+    if hits == 1 {
+        Ok(())
+    } else {
+        Err(format!("expected one `if <map>.len() == 1 {{ send_record_after_checking_target(..) }}`, found {hits}"))
+    }
+}
+
+fn is_ok_of(e: &syn::Expr) -> bool {
+    call_named(e, "Ok").is_some()
+}
+fn is_mismatch_err(e: &syn::Expr) -> bool {
+    call_named(e, "Err").map(|c| c.args.len() == 1 && call_named(&c.args[0], "RecordDoesNotMatch").is_some()).unwrap_or(false)
+}
+
+/// `true`: what is sent is `if cfg.does_target_match(&record) { Ok(record) } else { Err(RecordDoesNotMatch(record)) }`;
+/// `false`: `does_target_match` is not consulted at all and `Ok(record)` is sent; anything else is refused.
+fn read_target_checked(blocks: &[&syn::Block]) -> Result<bool, String> {
+    let c = collect(blocks);
+    let consults = c.method_calls.iter().filter(|m| m.method == "does_target_match").count();
+    if !c.method_calls.iter().any(|m| m.method == "send") {
+        return Err("nothing is sent".into());
+    }
+    if consults == 0 {
+        // positively recognise the weaker alternative: the value sent is bound to / is literally `Ok(<record>)`
+        let sends_ok = c.locals.iter().any(|(_, init)| is_ok_of(init))
+            || c.method_calls.iter().any(|m| m.method == "send" && m.args.len() == 1 && is_ok_of(&m.args[0]));
+        return if sends_ok { Ok(false) } else { Err("does_target_match is not consulted and the value sent is not recognisable".into()) };
+    }
+    if consults > 1 {
+        return Err("does_target_match is consulted more than once".into());
+    }
+    for i in &c.ifs {
+        let (cond, negated) = match peel(&i.cond) {
+            syn::Expr::Unary(u) if matches!(u.op, syn::UnOp::Not(_)) => (peel(&u.expr), true),
+            other => (other, false),
+        };
+        if method(cond, "does_target_match").is_none() {
+            continue;
+        }
+        let Some(eb) = else_block(i) else { return Err("the target test has no else branch".into()) };
+        let (Some(tv), Some(ev)) = (block_value(&i.then_branch), block_value(eb)) else {
+            return Err("the branches of the target test are not values".into());
+        };
+        let (yes, no) = if negated { (ev, tv) } else { (tv, ev) };
+        return if is_ok_of(yes) && is_mismatch_err(no) {
+            Ok(true)
+        } else {
+            Err(format!("unexpected answers of the target test: match => `{}`, no match => `{}`", toks(yes), toks(no)))
+        };
+    }
+    Err("does_target_match is consulted, but not as the condition of an if/else".into())
+}
+
+/// `does_target_match`: returns the comparison used for the ops of the two registers and its source text.
+/// Shape required: without a target -> true; with `is_register`: both records deserialised as SignedRegister (a failure
+/// returns false), base registers equal, ops compared; otherwise `target == record`.
+fn read_does_target_match(f: &syn::ImplItemFn) -> Result<(&'static str, String), String> {
+    // parameter holding the fetched record
+    let params: Vec<String> = f
+        .sig
+        .inputs
+        .iter()
+        .filter_map(|a| match a {
+            syn::FnArg::Typed(t) => pat_ident(&t.pat),
+            _ => None,
+        })
+        .collect();
+    let [fetched_param] = params.as_slice() else { return Err("expected exactly one parameter (the fetched record)".into()) };
+    // outer: if let Some([ref] t) = [&]self.target_record { .. } else { true }
+    let Some(syn::Expr::If(outer)) = block_value(&f.block).map(peel) else {
+        return Err("body is not a single `if let Some(target) = self.target_record {..} else {..}`".into());
+    };
+    if stmts(&f.block).len() != 1 {
+        return Err("unexpected statements before the target test".into());
+    }
+    let syn::Expr::Let(l) = &*outer.cond else { return Err("outer test is not `if let`".into()) };
+    let target_name = match &*l.pat {
+        syn::Pat::TupleStruct(t) if t.path.segments.last().map(|s| s.ident == "Some").unwrap_or(false) && t.elems.len() == 1 => {
+            pat_ident(&t.elems[0]).ok_or("unexpected pattern inside Some(..)")?
+        }
+        _ => return Err("outer pattern is not Some(..)".into()),
+    };
+    if !matches!(peel(&l.expr), syn::Expr::Field(fl) if matches!(&fl.member, syn::Member::Named(n) if n == "target_record") && toks(&*fl.base) == "self") {
+        return Err(format!("outer test inspects `{}`, not self.target_record", toks(&*l.expr)));
+    }
+    let Some(no_target) = else_block(outer).and_then(block_value) else { return Err("no value without a target".into()) };
+    if toks(no_target) != "true" {
+        return Err(format!("without a target the answer is `{}`, not true", toks(no_target)));
+    }
+    // inner: if self.is_register { .. } else { target == record }
+    let inner_stmts = stmts(&outer.then_branch);
+    let [syn::Stmt::Expr(inner, None)] = inner_stmts.as_slice() else { return Err("expected a single `if self.is_register` inside".into()) };
+    let syn::Expr::If(inner) = peel(inner) else { return Err("expected `if self.is_register`".into()) };
+    if toks(&*inner.cond) != "self.is_register" {
+        return Err(format!("inner test is `{}`, not self.is_register", toks(&*inner.cond)));
+    }
+    let Some(plain) = else_block(inner).and_then(block_value) else { return Err("no plain-record branch".into()) };
+    let plain_ok = match peel(plain) {
+        syn::Expr::Binary(b) if matches!(b.op, syn::BinOp::Eq(_)) => {
+            let (a, c) = (ident_of(&b.left), ident_of(&b.right));
+            (a.as_deref() == Some(target_name.as_str()) && c.as_deref() == Some(fetched_param.as_str()))
+                || (c.as_deref() == Some(target_name.as_str()) && a.as_deref() == Some(fetched_param.as_str()))
+        }
+        _ => false,
+    };
+    if !plain_ok {
+        return Err(format!("plain-record branch is `{}`, not `target == record`", toks(plain)));
+    }
+    // register branch: two deserialisations classified by their argument, then the comparison
+    let mut target_reg = None;
+    let mut fetched_reg = None;
+    let reg_stmts = stmts(&inner.then_branch);
+    let Some((last, lets)) = reg_stmts.split_last() else { return Err("empty register branch".into()) };
+    for st in lets {
+        let syn::Stmt::Local(loc) = st else {
+            // e.g. a binding used only by logs
+            return Err(format!("unexpected statement in the register branch: `{}`", toks(*st)));
+        };
+        let Some(init) = loc.init.as_ref() else { return Err("binding without value in the register branch".into()) };
+        // find the deserialisation call and what happens on failure
+        let (call, fail_returns_false, name) = match (&loc.pat, peel(&init.expr), init.diverge.as_ref()) {
+            // let x = match try_deserialize_record::<SignedRegister>(a) { Ok(r) => r, Err(..) => { ..; return false; } };
+            (p, syn::Expr::Match(m), None) => {
+                let Some(n) = pat_ident(p) else { return Err("unexpected binding pattern in the register branch".into()) };
+                let mut ok_passes = false;
+                let mut err_false = false;
+                for a in &m.arms {
+                    let pt = toks(&a.pat);
+                    if pt.starts_with("Ok(") {
+                        let inner_name = pt.trim_start_matches("Ok(").trim_end_matches(')').to_string();
+                        ok_passes = ident_of(&a.body).as_deref() == Some(inner_name.as_str());
+                    } else if pt.starts_with("Err(") {
+                        err_false = returns_false(&a.body);
+                    } else {
+                        return Err(format!("unexpected arm `{pt}` in a deserialisation"));
+                    }
+                }
+                if m.arms.len() != 2 || !ok_passes {
+                    if call_named(&m.expr, "try_deserialize_record").is_some() {
+                        return Err("deserialisation match is not `Ok(r) => r, Err(..) => return false`".into());
+                    }
+                    // a binding that has nothing to do with the comparison (e.g. for logging): it must not shadow anything we use
+                    continue;
+                }
+                (&*m.expr, err_false, n)
+            }
+            // let Ok(x) = try_deserialize_record::<SignedRegister>(a) else { ..; return false };
+            (syn::Pat::TupleStruct(t), e, Some((_, div))) if t.path.segments.last().map(|s| s.ident == "Ok").unwrap_or(false) && t.elems.len() == 1 => {
+                let Some(n) = pat_ident(&t.elems[0]) else { return Err("unexpected pattern inside Ok(..)".into()) };
+                (e, returns_false(div), n)
+            }
+            (p, e, None) if call_named(e, "try_deserialize_record").is_none() => {
+                // unrelated binding (e.g. a pretty key for logs); refuse if it rebinds one of our names
+                if let Some(n) = pat_ident(p) {
+                    if n == target_name || n == *fetched_param {
+                        return Err(format!("`{n}` is rebound in the register branch"));
+                    }
+                }
+                continue;
+            }
+            _ => return Err(format!("unexpected binding in the register branch: `{}`", toks(*st))),
+        };
+        let Some(c) = call_named(call, "try_deserialize_record") else {
+            return Err(format!("`{name}` is not bound to try_deserialize_record::<SignedRegister>(..)"));
+        };
+        if !toks(&*c.func).contains("SignedRegister") || c.args.len() != 1 {
+            return Err("records are not deserialised as SignedRegister".into());
+        }
+        if !fail_returns_false {
+            return Err(format!("a failed deserialisation of `{}` does not `return false`", toks(&c.args[0])));
+        }
+        match ident_of(&c.args[0]) {
+            Some(a) if a == *fetched_param => fetched_reg = Some(name),
+            Some(a) if a == target_name => target_reg = Some(name),
+            _ => return Err(format!("deserialisation of `{}`, which is neither the fetched nor the target record", toks(&c.args[0]))),
+        }
+    }
+    let (Some(t), Some(fr)) = (target_reg, fetched_reg) else { return Err("both the fetched and the target record must be deserialised".into()) };
+    let syn::Stmt::Expr(cmp, None) = last else { return Err("register branch does not end in a comparison".into()) };
+    let syn::Expr::Binary(and) = peel(cmp) else { return Err("register branch is not `base == base && ops <cmp> ops`".into()) };
+    if !matches!(and.op, syn::BinOp::And(_)) {
+        return Err("register branch is not a conjunction".into());
+    }
+    // which role does `x.<getter>()` refer to
+    let role = |e: &syn::Expr, getter: &str| -> Option<char> {
+        let m = method(e, getter)?;
+        if !m.args.is_empty() {
+            return None;
+        }
+        let r = ident_of(&m.receiver)?;
+        if r == t {
+            Some('t')
+        } else if r == fr {
+            Some('f')
+        } else {
+            None
+        }
+    };
+    let is_base_eq = |e: &syn::Expr| -> bool {
+        match peel(e) {
+            syn::Expr::Binary(b) if matches!(b.op, syn::BinOp::Eq(_)) => {
+                matches!((role(&b.left, "base_register"), role(&b.right, "base_register")), (Some('t'), Some('f')) | (Some('f'), Some('t')))
+            }
+            _ => false,
+        }
+    };
+    let ops_cmp = |e: &syn::Expr| -> Option<&'static str> {
+        match peel(e) {
+            syn::Expr::Binary(b) if matches!(b.op, syn::BinOp::Eq(_)) => {
+                match (role(&b.left, "ops"), role(&b.right, "ops")) {
+                    (Some('t'), Some('f')) | (Some('f'), Some('t')) => Some("eq"),
+                    _ => None,
+                }
+            }
+            syn::Expr::MethodCall(m) if (m.method == "is_subset" || m.method == "is_superset") && m.args.len() == 1 => {
+                let (a, b) = (role(&m.receiver, "ops")?, role(&m.args[0], "ops")?);
+                let (small, big) = if m.method == "is_subset" { (a, b) } else { (b, a) };
+                match (small, big) {
+                    ('t', 'f') => Some("targetSubsetOfFetched"),
+                    ('f', 't') => Some("fetchedSubsetOfTarget"),
+                    _ => None,
+                }
+            }
+            _ => None,
+        }
+    };
+    let (l, r) = (&*and.left, &*and.right);
+    let (cmp_expr, v) = if is_base_eq(l) {
+        (r, ops_cmp(r))
+    } else if is_base_eq(r) {
+        (l, ops_cmp(l))
+    } else {
+        return Err("the base registers are not compared for equality".into());
+    };
+    match v {
+        Some(v) => Ok((v, toks(cmp_expr))),
+        None => Err(format!("unknown comparison of the register ops: `{}`", toks(cmp_expr))),
+    }
+}
+
+/// a block/expression that (after logging) returns false
+fn returns_false_expr(e: &syn::Expr) -> bool {
+    match peel(e) {
+        syn::Expr::Return(r) => r.expr.as_ref().map(|v| toks(&**v) == "false").unwrap_or(false),
+        syn::Expr::Block(b) => returns_false_block(&b.block),
+        _ => false,
+    }
+}
+fn returns_false_block(b: &syn::Block) -> bool {
+    match stmts(b).last() {
+        Some(syn::Stmt::Expr(e, _)) => returns_false_expr(e),
+        _ => false,
+    }
+}
+fn returns_false(e: &syn::Expr) -> bool {
+    returns_false_expr(e)
+}
+
 pub fn generate(repo: &PathBuf) -> Result<String, String> {
     let proto = parse_file(&repo.join("ant-protocol/src/lib.rs"))?;
     let cgs = const_value(&proto, "CLOSE_GROUP_SIZE")?;
@@ -122,62 +709,21 @@ pub fn generate(repo: &PathBuf) -> Result<String, String> {
         return Err(format!("driver.rs: unexpected GetRecordResultMap = {alias}"));
     };
 
-    // event/kad.rs accumulate_get_record_found: `if responded_peers >= expected_answers`, expected from get_quorum_value(&cfg.get_quorum)
+    // event/kad.rs: the readers below work on the syntax tree, look through private same-file helpers, classify
+    // locals by what they are bound to (never by name), accept both directions of a comparison and skip log macros.
     let kadf = parse_file(&repo.join("ant-networking/src/event/kad.rs"))?;
     let acc = impl_fn(&kadf, "SwarmDriver", None, "accumulate_get_record_found")?;
-    let body = toks(&acc.block);
-    if !body.contains("letexpected_answers=get_quorum_value(&cfg.get_quorum);") {
-        return Err("accumulate_get_record_found: expected_answers is not get_quorum_value(&cfg.get_quorum)".into());
-    }
-    let threshold_ge = if body.contains("ifresponded_peers>=expected_answers{") {
-        true
-    } else if body.contains("ifresponded_peers>expected_answers{") {
-        false
-    } else {
-        return Err("accumulate_get_record_found: completion test is not `responded_peers >= expected_answers`".into());
-    };
-    let single_checks_target = body.contains("ifresult_map.len()==1{Self::send_record_after_checking_target(senders,peer_record.record,&cfg)?;}");
+    let acc_blocks = with_private_helpers(&kadf, &acc.block, &["send_record_after_checking_target"]);
+    let threshold_ge = read_threshold(&acc_blocks).map_err(|e| format!("accumulate_get_record_found: {e}"))?;
+    read_single_version_branch(&acc_blocks).map_err(|e| format!("accumulate_get_record_found: {e}"))?;
+    let found_checks_key = read_found_checks_key(acc, &acc_blocks).map_err(|e| format!("accumulate_get_record_found: {e}"))?;
     let sender_fn = impl_fn(&kadf, "SwarmDriver", None, "send_record_after_checking_target")?;
-    let sbody = toks(&sender_fn.block);
-    let target_checked = sbody.contains("ifcfg.does_target_match(&record){Ok(record)}else{Err(GetRecordError::RecordDoesNotMatch(record))}");
-    if !single_checks_target {
-        return Err("accumulate_get_record_found: single-version branch is not `send_record_after_checking_target(senders, peer_record.record, &cfg)`".into());
-    }
+    let send_blocks = with_private_helpers(&kadf, &sender_fn.block, &[]);
+    let target_checked = read_target_checked(&send_blocks).map_err(|e| format!("send_record_after_checking_target: {e}"))?;
 
-    // driver.rs GetRecordCfg::does_target_match: three shapes
-    //   no target                -> true
-    //   is_register              -> both records deserialise as SignedRegister (else false) and
-    //                               base_register() equal && ops() <cmp> ops()
-    //   otherwise                -> target_record == record
+    // driver.rs GetRecordCfg::does_target_match
     let dtm = impl_fn(&drv, "GetRecordCfg", None, "does_target_match")?;
-    let d = toks(&dtm.block);
-    if !d.starts_with("{ifletSome(reftarget_record)=self.target_record{ifself.is_register{") {
-        return Err("does_target_match: expected `if let Some(ref target_record) = self.target_record { if self.is_register {`".into());
-    }
-    if !d.ends_with("}else{target_record==record}}else{true}}") {
-        return Err("does_target_match: expected the non-register branch `target_record == record` and `true` without a target".into());
-    }
-    for (what, var, arg) in [("fetched", "fetched_register", "record"), ("target", "target_register", "target_record")] {
-        let pat = format!("let{var}=matchtry_deserialize_record::<SignedRegister>({arg}){{Ok({var})=>{var},Err(err)=>{{");
-        if !d.contains(&pat) {
-            return Err(format!("does_target_match: expected the {what} record to be deserialised as SignedRegister with `return false` on failure"));
-        }
-    }
-    if d.matches("returnfalse;").count() != 2 {
-        return Err("does_target_match: expected exactly two `return false` (one per failed deserialisation)".into());
-    }
-    let base_eq = "target_register.base_register()==fetched_register.base_register()&&";
-    let Some(pos) = d.find(base_eq) else {
-        return Err("does_target_match: register branch does not compare `target_register.base_register() == fetched_register.base_register() &&`".into());
-    };
-    let tail = &d[pos + base_eq.len()..];
-    let tail = tail.split("}else{target_record==record}").next().unwrap_or("");
-    let reg_ops_cmp = match tail {
-        "target_register.ops()==fetched_register.ops()" | "fetched_register.ops()==target_register.ops()" => "eq",
-        "target_register.ops().is_subset(fetched_register.ops())" => "targetSubsetOfFetched",
-        "fetched_register.ops().is_subset(target_register.ops())" => "fetchedSubsetOfTarget",
-        other => return Err(format!("does_target_match: unknown comparison of the register ops: `{other}`")),
-    };
+    let (reg_ops_cmp, _cmp_text) = read_does_target_match(dtm).map_err(|e| format!("does_target_match: {e}"))?;
 
     let mut s = header("ant-protocol/src/lib.rs, ant-networking/src/{lib,driver}.rs, ant-networking/src/event/kad.rs");
     s.push_str("namespace SafeNet.Gen.Quorum\n");
@@ -197,8 +743,9 @@ pub fn generate(repo: &PathBuf) -> Result<String, String> {
     s.push_str(&format!("/-- `GetRecordResultMap` keeps the responders of a version in a `HashSet<PeerId>` ({alias}) -/\ndef respondersAreSet : Bool := {}\n", lean_bool(responders_set)));
     s.push_str(&format!("/-- accumulation completes on `responded_peers >= expected_answers` (false: strict `>`) -/\ndef thresholdIsGe : Bool := {}\n", lean_bool(threshold_ge)));
     s.push_str(&format!("/-- `send_record_after_checking_target` answers `RecordDoesNotMatch` unless `cfg.does_target_match(&record)` -/\ndef targetChecked : Bool := {}\n", lean_bool(target_checked)));
+    s.push_str(&format!("/-- `accumulate_get_record_found` drops a reply whose `record.key` is not the key of the pending query, before any use of the reply (false: the key is never compared) -/\ndef foundChecksKey : Bool := {}\n", lean_bool(found_checks_key)));
     s.push_str("/-- how `GetRecordCfg::does_target_match` compares the ops of the fetched register with the target's (`is_register`) -/\ninductive OpsCmp where\n  | eq | targetSubsetOfFetched | fetchedSubsetOfTarget\n  deriving DecidableEq, Repr\n");
-    s.push_str(&format!("/-- `does_target_match`, register branch: base registers equal && `{tail}`; a record that does not deserialise never matches; without `is_register`: `target_record == record` -/\ndef regTargetOpsCmp : OpsCmp := .{reg_ops_cmp}\n"));
+    s.push_str(&format!("/-- `does_target_match`, register branch: base registers equal && the ops compared as named here; a record that does not deserialise never matches; without `is_register`: `target_record == record` -/\ndef regTargetOpsCmp : OpsCmp := .{reg_ops_cmp}\n"));
     s.push_str("end SafeNet.Gen.Quorum\n");
     Ok(s)
 }
